@@ -44,6 +44,7 @@ import (
 
 	"filippo.io/age"
 	"perkeep.org/pkg/blob"
+	"perkeep.org/pkg/blobserver/encrypt"
 
 	"verif/drv"
 	"verif/gate"
@@ -641,13 +642,16 @@ func runHist(scn *scenario, rng *rand.Rand) {
 	order := rng.Perm(scn.N + 3)[:scn.N]
 	if scn.Jitter {
 		// blob 0 (smallest ref) is the 101st and, if the first job gave up, again the one that triggers the next job
-		for i, bi := range order {
-			if bi == 0 {
-				order[i], order[100] = order[100], order[i]
+		lim := encrypt.SmallMetaCountLimit
+		if lim < len(order) {
+			for i, bi := range order {
+				if bi == 0 {
+					order[i], order[lim] = order[lim], order[i]
+				}
 			}
-		}
-		if order[100] != 0 {
-			order[100] = 0
+			if order[lim] != 0 {
+				order[lim] = 0
+			}
 		}
 		var ctr uint32
 		w.plan.Jitter = func() {
@@ -1315,7 +1319,12 @@ func main() {
 	random := flag.Int("random", 0, "additional seeded random scenarios")
 	sc := flag.String("scratch", "", "scratch dir")
 	verbose := flag.Bool("v", false, "perkeep logs to stderr")
+	limit := flag.Bool("limit", false, "print the code's compaction threshold (encrypt.SmallMetaCountLimit) and exit")
 	flag.Parse()
+	if *limit {
+		fmt.Printf("limit=%d full=%d\n", encrypt.SmallMetaCountLimit, encrypt.FullMetaBlobSize)
+		return
+	}
 	if !*verbose {
 		log.SetOutput(io.Discard)
 	}
@@ -1362,7 +1371,7 @@ func main() {
 		}
 	}
 	if needWin {
-		win = len(dryWindow(rng, 100))
+		win = len(dryWindow(rng, encrypt.SmallMetaCountLimit))
 		stats["window_calls"] = win
 	}
 	for i := 0; i < *random; i++ {
@@ -1375,7 +1384,7 @@ func main() {
 			}
 			scns = append(scns, s)
 		case 1, 2:
-			s := scenario{Kind: "crash", Pre: 100, K: 1 + rng.Intn(win+1), Wipe: rng.Intn(2) == 0, Cont: []int{0, 3, 105}[rng.Intn(3)]}
+			s := scenario{Kind: "crash", Pre: encrypt.SmallMetaCountLimit, K: 1 + rng.Intn(win+1), Wipe: rng.Intn(2) == 0, Cont: []int{0, 3, 105}[rng.Intn(3)]}
 			if rng.Intn(3) == 0 {
 				s.Second = fmt.Sprintf("e%d", rng.Intn(4))
 			}
@@ -1403,9 +1412,7 @@ func main() {
 		case "hist":
 			runHist(s, rng)
 		case "crash":
-			if s.Pre == 0 {
-				s.Pre = 100
-			}
+			s.Pre = encrypt.SmallMetaCountLimit // the next receive is the one that triggers the compaction
 			runCrash(s, rng, win)
 		case "tamper":
 			runTamper(s, rng, bases)
